@@ -71,10 +71,10 @@ def run(res):
         res.violation('ESC-freedom dataflow obligation fails: %s' % t, {'obligation': 'esc-literal', 'kind': 'failed-literal-obligation', 'text': t}, no_input=True)
     tier_e.run(res, kit_e.C16_JOBS, 'c16_bounded',
                'Proved: pretty_print_notebook_diff writes nothing and renders nothing when the diff is empty, and writes the header and renders the entries otherwise; with colour '
-               'disabled the git diff command has " --color-words" replaced by the empty string on every path; syntax highlighting (pygments, ANSI) is reached only under '
+               'disabled the git diff command has " --color-words" replaced by " --no-color" on every path; syntax highlighting (pygments, ANSI) is reached only under '
                'config.use_color; every ESC-bearing literal / colorama constant of prettyprint.py lives inside col_const[True] and col_const is only indexed by self.use_color. '
                'NOT proved (bounded stand-in only): rendering never raises; something is printed for every visible diff; external tools emit no escape codes without a colour flag.')
-    res.assumptions.append('git/diff without a colour flag emit no escape sequences (depends on the user\'s git configuration; monitored by the bounded stand-in only)')
+    res.assumptions.append('git diff --no-color and plain diff emit no escape sequences (monitored by the bounded stand-in, also under a git configuration with color.ui = always)')
 
 
 def replay(path):
